@@ -57,6 +57,143 @@ fn uniq(l: &[S]) -> bool {
   true
 }
 
+/// every read-only view of an `OrderedSet` must agree with `as_slice` (the order the model predicts)
+fn obs_oset(set: &OrderedSet<S>, what: &str) -> Option<String> {
+  let sl_ = set.as_slice();
+  let bad = |v: &str| Some(format!("observer-inconsistent:OrderedSet::{} after {} contents {}", v, what, sl(sl_)));
+  if set.len() != sl_.len() {
+    return bad("len");
+  }
+  if set.is_empty() != sl_.is_empty() {
+    return bad("is_empty");
+  }
+  if set.head() != sl_.first() {
+    return bad("head");
+  }
+  if set.tail() != sl_.last() {
+    return bad("tail");
+  }
+  if set.iter().copied().collect::<Vec<S>>() != sl_ {
+    return bad("iter");
+  }
+  if set.clone().into_vec() != sl_ {
+    return bad("into_vec");
+  }
+  if set.clone().into_iter().collect::<Vec<S>>() != sl_ {
+    return bad("into_iter");
+  }
+  if (&**set) != sl_ {
+    return bad("deref");
+  }
+  for k in 0u8..8 {
+    if set.contains(&S { key: k, val: 9 }) != sl_.iter().any(|e| e.key == k) {
+      return bad("contains");
+    }
+  }
+  let mut c = set.clone();
+  if c.head_mut().map(|e| *e) != sl_.first().copied() || c.tail_mut().map(|e| *e) != sl_.last().copied() {
+    return bad("head_mut/tail_mut");
+  }
+  if c.iter_mut_unchecked().map(|e| *e).collect::<Vec<S>>() != sl_ {
+    return bad("iter_mut_unchecked");
+  }
+  c.clear();
+  if !c.is_empty() || c.len() != 0 {
+    return bad("clear");
+  }
+  match serde_json::to_value(set).ok().and_then(|j| serde_json::from_value::<OrderedSet<S>>(j).ok()) {
+    Some(back) if &back == set => {}
+    _ => return bad("json-roundtrip"),
+  }
+  None
+}
+
+fn obs_oos(r: &OneOrSet<S>, what: &str) -> Option<String> {
+  let sl_ = r.as_slice();
+  let bad = |v: &str| Some(format!("observer-inconsistent:OneOrSet::{} after {} contents {}", v, what, sl(sl_)));
+  if r.len() != sl_.len() {
+    return bad("len");
+  }
+  for i in 0..sl_.len() + 2 {
+    if r.get(i) != sl_.get(i) {
+      return bad("get");
+    }
+  }
+  if r.iter().copied().collect::<Vec<S>>() != sl_ {
+    return bad("iter");
+  }
+  if r.clone().into_vec() != sl_ || Vec::<S>::from(r.clone()) != sl_ {
+    return bad("into_vec");
+  }
+  if OrderedSet::<S>::from(r.clone()).as_slice() != sl_ {
+    return bad("into OrderedSet");
+  }
+  if (&**r) != sl_ || AsRef::<[S]>::as_ref(r) != sl_ {
+    return bad("deref/as_ref");
+  }
+  for k in 0u8..8 {
+    if r.contains(&S { key: k, val: 9 }) != sl_.iter().any(|e| e.key == k) {
+      return bad("contains");
+    }
+  }
+  // the fallible map with a closure that never fails is the plain map; with one that fails it is an error
+  let a = r.clone().map(|e| M { key: e.key, val: e.val });
+  match r.clone().try_map(|e| Ok::<M, ()>(M { key: e.key, val: e.val })) {
+    Ok(b) if b == a && format!("{:?}", a) == format!("{:?}", b) => {}
+    _ => return bad("try_map(ok) != map"),
+  }
+  for i in 0..sl_.len() {
+    let mut n = 0;
+    let res = r.clone().try_map(|e| {
+      n += 1;
+      if n == i + 1 {
+        Err(())
+      } else {
+        Ok(M { key: e.key, val: e.val })
+      }
+    });
+    if res.is_ok() {
+      return bad("try_map(err) accepted");
+    }
+  }
+  None
+}
+
+fn obs_oom(r: &OneOrMany<S>, what: &str) -> Option<String> {
+  let sl_ = r.as_slice();
+  let bad = |v: &str| Some(format!("observer-inconsistent:OneOrMany::{} after {} contents {}", v, what, sl(sl_)));
+  if r.len() != sl_.len() || r.is_empty() != sl_.is_empty() {
+    return bad("len/is_empty");
+  }
+  let mut c = r.clone();
+  for i in 0..sl_.len() + 2 {
+    if r.get(i) != sl_.get(i) || c.get_mut(i).map(|e| *e) != sl_.get(i).copied() {
+      return bad("get");
+    }
+  }
+  if r.iter().copied().collect::<Vec<S>>() != sl_ {
+    return bad("iter");
+  }
+  if r.clone().into_vec() != sl_ || Vec::<S>::from(r.clone()) != sl_ {
+    return bad("into_vec");
+  }
+  if r.clone().into_iter().collect::<Vec<S>>() != sl_ {
+    return bad("into_iter");
+  }
+  if (&**r) != sl_ || AsRef::<[S]>::as_ref(r) != sl_ {
+    return bad("deref/as_ref");
+  }
+  for k in 0u8..6 {
+    for v in 0u8..3 {
+      let e = S { key: k, val: v };
+      if r.contains(&e) != sl_.contains(&e) {
+        return bad("contains");
+      }
+    }
+  }
+  None
+}
+
 fn split<'a>(args: &'a [&'a str]) -> (&'a [&'a str], &'a [&'a str]) {
   match args.iter().position(|t| *t == "|") {
     Some(i) => (&args[..i], &args[i + 1..]),
@@ -71,7 +208,7 @@ fn run_oset(args: &[&str]) -> String {
   // start contents are given duplicate-free by the generator; build through the checked ctor
   let Ok(mut set) = OrderedSet::try_from(es) else { return "bad-request".into() };
   let mut out = vec![];
-  let mut fail: Option<String> = None;
+  let mut fail: Option<String> = obs_oset(&set, "try_from");
   for op in ops {
     let p: Vec<&str> = op.split(':').collect();
     let n = |i: usize| -> Option<u8> { p.get(i)?.parse().ok() };
@@ -95,6 +232,9 @@ fn run_oset(args: &[&str]) -> String {
     let Some(flag) = flag else { return "bad-request".into() };
     if !uniq(set.as_slice()) && fail.is_none() {
       fail = Some(format!("duplicate-key:after {} contents {}", op, sl(set.as_slice())));
+    }
+    if fail.is_none() {
+      fail = obs_oset(&set, op);
     }
     out.push(format!("{}{}", flag, sl(set.as_slice())));
   }
@@ -130,8 +270,46 @@ fn run_oos(args: &[&str]) -> String {
   let es: Option<Vec<S>> = es.iter().map(|t| pe(t)).collect();
   let Some(es) = es else { return "bad-request".into() };
   let single = es.len() == 1;
-  let Ok(mut r) = OneOrSet::try_from(es) else { return "err".into() };
+  // every constructor path must give the same value (and the same shape)
   let mut fail: Option<String> = None;
+  {
+    let same = |a: &Result<OneOrSet<S>, identity_core::Error>, b: &Result<OneOrSet<S>, identity_core::Error>| match (a, b) {
+      (Ok(x), Ok(y)) => x == y && serde_json::to_value(x).unwrap() == serde_json::to_value(y).unwrap(),
+      (Err(_), Err(_)) => true,
+      _ => false,
+    };
+    let a = OneOrSet::try_from(es.clone());
+    if let Ok(set) = OrderedSet::try_from(es.clone()) {
+      let b = OneOrSet::new_set(set.clone());
+      let c = OneOrSet::try_from(set.clone());
+      if !same(&a, &b) || !same(&a, &c) {
+        fail = Some(format!("ctor-paths-differ:OneOrSet try_from(vec) / new_set / try_from(set) on {}", sl(&es)));
+      }
+      if es.is_empty() && (a.is_ok() || b.is_ok() || c.is_ok()) {
+        fail = Some("one-or-set-empty:constructor".into());
+      }
+      if let Ok(b) = &b {
+        if b.as_slice() != es.as_slice() {
+          fail = Some(format!("ctor-paths-differ:OneOrSet::new_set contents on {}", sl(&es)));
+        }
+      }
+    } else if a.is_ok() {
+      fail = Some(format!("duplicate-accepted:OneOrSet::try_from on {}", sl(&es)));
+    }
+    if single {
+      for (n, v) in [("new_one", OneOrSet::new_one(es[0])), ("from", OneOrSet::from(es[0]))] {
+        if !same(&a, &Ok(v.clone())) || serde_json::to_value(&v).unwrap().is_array() {
+          fail = Some(format!("singleton-not-bare:OneOrSet::{}", n));
+        }
+      }
+    }
+  }
+  let Ok(mut r) = OneOrSet::try_from(es) else {
+    return match fail {
+      Some(f) => format!("err\t#FAIL:{}", f),
+      None => "err".into(),
+    };
+  };
   fn chk(r: &OneOrSet<S>, what: &str) -> Option<String> {
     if r.len() == 0 {
       return Some(format!("one-or-set-empty:{}", what));
@@ -141,7 +319,7 @@ fn run_oos(args: &[&str]) -> String {
     }
     let j = serde_json::to_string(r).unwrap();
     match serde_json::from_str::<OneOrSet<S>>(&j) {
-      Ok(back) if &back == r => None,
+      Ok(back) if &back == r => obs_oos(r, what),
       _ => Some(format!("one-or-set-json-roundtrip:{} {}", what, j)),
     }
   }
@@ -212,10 +390,20 @@ fn run_oom(args: &[&str]) -> String {
   if single && !matches!(r, OneOrMany::One(_)) {
     fail = Some("singleton-not-bare:OneOrMany::from(vec![x])".into());
   }
+  if single && (OneOrMany::from(r.as_slice()[0]) != r || !matches!(OneOrMany::from(r.as_slice()[0]), OneOrMany::One(_))) {
+    fail = Some("singleton-not-bare:OneOrMany::from(x)".into());
+  }
+  if OneOrMany::<S>::default() != OneOrMany::Many(vec![]) {
+    fail = Some("ctor-paths-differ:OneOrMany::default".into());
+  }
   let mut chk = |r: &OneOrMany<S>| {
     let j = serde_json::to_string(r).unwrap();
     match serde_json::from_str::<OneOrMany<S>>(&j) {
-      Ok(back) if &back == r => {}
+      Ok(back) if &back == r => {
+        if let Some(f) = obs_oom(r, "push") {
+          fail.get_or_insert(f);
+        }
+      }
       _ => {
         fail.get_or_insert(format!("one-or-many-json-roundtrip:{}", j));
       }
